@@ -78,12 +78,12 @@ def jobs(tier, seed):
     for with_dir in (False, True):
         for with_epoch in (False, True):
             for with_rpm in (False, True):
-                out.append({"harness": "nvra_roundtrip",
+                out.append({"harness": "nvra_roundtrip", "solver_timeout_ms": 600000,
                             "params": {"with_dir": with_dir, "with_epoch": with_epoch, "with_rpm": with_rpm,
-                                       "n_name": 12 if big else 8, "n_ver": 8 if big else 5, "n_rel": 8 if big else 5,
-                                       "n_dir": 8 if big else 4}})
+                                       "n_name": 12 if big else 7, "n_ver": 8 if big else 4, "n_rel": 8 if big else 4,
+                                       "n_dir": 8 if big else 3}})
                 if with_epoch:
-                    out.append({"harness": "check_nevra_canonical",
+                    out.append({"harness": "check_nevra_canonical", "solver_timeout_ms": 600000,
                                 "params": {"with_dir": with_dir, "with_rpm": with_rpm,
                                            "n_name": 10 if big else 6, "n_ver": 6 if big else 4, "n_rel": 6 if big else 4,
                                            "n_dir": 6 if big else 3}})
